@@ -91,6 +91,21 @@ Docs == { [n |-> 10, kind |-> KindsE, parent |-> ParE,
            nr |-> 0, rb |-> <<>>, re |-> <<>>, rdisp |-> <<>>, ranim |-> <<>>, rbg |-> <<>>, idisp |-> ""]
           : c \in [tp : {<<N, N>>, <<2, 10>>}, tc : {<<N, N>>, <<2, 8>>}, tb : TR, tt : TR, db : {"", "none"}, dt : {"", "none"}] }
 """),
+  # ruby x regions: the container, the base and the annotation may each be associated with a region of their own (region
+  # selection can leave a container with its base only, or with its annotation only); the base has two spans
+  "rubyreg": dict(tmax=8, text=_COMMON + r"""
+Kinds == <<"body", "div", "p", "span", "text", "ruby", "rb", "span", "text", "span", "text", "rt", "span", "text">>
+Par   == <<0, 1, 2, 3, 4, 3, 6, 7, 8, 7, 10, 6, 12, 13>>
+Docs == { [n |-> 14, kind |-> Kinds, parent |-> Par,
+           b |-> <<N, N, N, N, N, N, N, N, N, N, N, c.tt[1], N, N>>,
+           e |-> <<N, N, N, N, N, N, N, N, N, N, N, c.tt[2], N, N>>,
+           reg |-> <<0, c.rd, c.rp, 0, 0, c.rc, c.rb, 0, 0, c.rs, 0, c.rt, 0, 0>>, disp |-> Emp(14), anim |-> NoAnim(14),
+           txt |-> <<0, 0, 0, 0, 1, 0, 0, 0, 1, 0, 1, 0, 0, 1>>,
+           nr |-> 2, rb |-> <<N, N>>, re |-> <<N, c.re>>, rdisp |-> <<"", "">>, ranim |-> <<<<>>, <<>>>>,
+           rbg |-> <<"always", "whenActive">>, idisp |-> ""]
+          : c \in [rd : {0, 1}, rp : {0, 1, 2}, rc : {0, 1, 2}, rb : {0, 1, 2}, rs : {0, 2}, rt : {0, 1, 2}, tt : {<<N, N>>, <<2, 6>>},
+                   re : {N, 4}] }
+"""),
 }
 
 
@@ -246,7 +261,8 @@ def random_doc(rng, max_nodes=40, anim_styles=False, space=False, ruby=True, rub
           for sub in ("rb", "rt"):
             empty = loose and rng.random() < (0.3 if ruby_bias else 0.15)
             own = loose and (empty or rng.random() < (0.7 if sub == "rt" else 0.3))
-            sk = add(sub, rk, timed=own, regable=False)
+            # (mostly-ruby documents: a base or an annotation may be associated with a region of its own)
+            sk = add(sub, rk, timed=own, regable=ruby_bias and rng.random() < 0.6)
             if not own:
               disp[sk - 1] = ""
               anim[sk - 1] = []
